@@ -184,7 +184,32 @@ let rule_case fields =
     base @ extra
   | [] -> raise (Bad "rule case")
 
+(* C02produce: whatever the implementation itself produced must be accepted by the real parser and by
+   the model's decoder (proved sound for the structural rules) *)
+let produced_case fields =
+  match fields with
+  | [now; bs; obs; origin; _recipe] ->
+    let origin = s_sym origin in
+    let key = "wf.produced." ^ origin in
+    (match lst obs with
+     | Atom "unserialisable" :: _ -> [Propfail (key, "produced bundle cannot be serialised")]
+     | [Atom "panic"; _] when s_bytes bs = [] -> [Propfail (key, "producer panicked")]
+     | _ ->
+       let base = parse_case "produced" [now; bs; obs] in
+       let accepted = (match lst obs with Atom "ok" :: _ -> true | _ -> false) in
+       let m_ok = dec_bundle (s_n now) (s_bytes bs) <> None in
+       let extra =
+         if not accepted then [Propfail (key, "produced bundle is rejected by the parser")]
+         else if not m_ok then [Propfail (key, "produced bundle violates a structural rule (model decoder rejects)")]
+         else [] in
+       let base = List.map (function Ok_ t -> Ok_ (origin :: t) | v -> v) base in
+       (* a rejection agreed on by model and implementation is not a correspondence mismatch *)
+       base @ extra)
+  | _ -> raise (Bad "produced case")
+
 let () =
+  register "C02produce" "produced" produced_case;
+  register "C02produce" "produce-dist" (fun _ -> [Ok_ ["dist"]]);
   register "C02rules" "rule" rule_case;
   register "C01parse" "valid" (parse_case "valid");
   register "C01parse" "mutant" (parse_case "mutant");
